@@ -115,9 +115,9 @@ package state
 //@   ensures inv: InvQ(state)
 //@   loop 0 invariant 0 <= _i && _i <= len(state.blocksRequested)
 //@   loop 0 invariant forall(k, 0, _i, state.blocksRequested[k].hash != hash)
-//@   loop 1 invariant 0 <= _i1 && i + 1 + _i1 <= len(state.blocksRequested) && 0 <= i && i < len(state.blocksRequested)
+//@   loop 1 invariant 0 <= _i1 && _i0 + 1 + _i1 <= len(state.blocksRequested) && 0 <= _i0 && _i0 < len(state.blocksRequested)
 //@   loop 1 invariant same(state.blocksRequested, state.blocksToRequest, state.lastSavedHash) && cellsSame()
-//@   loop 1 invariant state.pendingBlockSize == sum(k, 0, 10, ite(k <= i || k >= i + 1 + _i1, pend(state, k), 0))
+//@   loop 1 invariant state.pendingBlockSize == sum(k, 0, 10, ite(k <= _i0 || k >= _i0 + 1 + _i1, pend(state, k), 0))
 //@   loop 2 invariant 0 <= _i && _i <= len(state.blocksToRequest)
 //@   loop 2 invariant forall(k, 0, _i, state.blocksToRequest[k] != hash)
 
